@@ -24,7 +24,8 @@ impl<const A: u64, const C: u64> LinearCongruentialGenerator64<A, C> {
 
     pub fn next_raw(&mut self) -> u64 {
         self.state = self.state.wrapping_mul(A).wrapping_add(C);
-        self.state
+        // the low k bits of the state repeat with period 2^k: hand out the state with its halves swapped
+        self.state.rotate_left(32)
     }
 }
 
